@@ -408,7 +408,7 @@ def truediv(a, b):
     a, b = lift(a), lift(b)
     if _conc_zero(a):
         return 0.0
-    return Sym(as_real_term(a) / as_real_term(b), "r")
+    return Sym(as_real_term(a) / as_real_term(b), "r", meta=("div", a, b))
 
 
 def _conc_zero(a):
